@@ -43,6 +43,27 @@ type derefStringer struct{ msg string }
 
 func (e *derefStringer) String() string { return e.msg }
 
+// wrapperPanic stands for a panic the runtime raises INSIDE a compiler-generated method wrapper (a value method called
+// through an interface holding a typed nil pointer): the frame on top of the stack has no source file path.
+type wrapperPanic struct{}
+
+type valueText struct{ s string }
+
+func (v valueText) Text() string { return v.s }
+
+type texter interface{ Text() string }
+
+// (a package-level variable: the call below stays a dynamic one, through the generated (*valueText).Text wrapper)
+var nilTexter texter = (*valueText)(nil)
+
+// raise panics with v - or, for wrapperPanic, lets the runtime do it from the generated wrapper.
+func raise(v any) {
+	if _, ok := v.(wrapperPanic); ok {
+		_ = nilTexter.Text()
+	}
+	panic(v)
+}
+
 type explodingErr struct{}
 
 func (explodingErr) Error() string { panic("Error method of the panic value panics") }
@@ -83,6 +104,7 @@ func panicValues() []struct {
 		{"exploding-error", explodingErr{}, false, false},
 		{"exploding-stringer", explodingStringer{}, false, false},
 		{"stringer", &derefStringer{"a stringer"}, false, false},
+		{"runtime-panic-in-generated-wrapper", wrapperPanic{}, false, false},
 		// the broken-connection errno one wrapping layer further down the OpError's chain
 		{"broken-pipe-wrapped", &net.OpError{Op: "write", Net: "tcp", Err: fmt.Errorf("flush: %w", &os.SyscallError{Syscall: "write", Err: syscall.EPIPE})}, false, true},
 		// ... and reported by the system call error's text only (other platforms' spelling, non-errno causes)
@@ -315,7 +337,9 @@ func runC15(src sim.Source, o Opts) *Result {
 	}
 	// "copy-source-panics": the handler streams a source into the writer (io.Copy -> ReadFrom); the source delivers one
 	// chunk and then panics with the value - the response has started by then
-	progress := []string{"nothing", "header", "partial", "failed-write", "copy-source-panics"}
+	// "refused-status": the handler asks for a status code the connection refuses by panicking (net/http does for codes
+	// outside 100-999): nothing has been sent, the panic is the connection's own
+	progress := []string{"nothing", "header", "partial", "failed-write", "copy-source-panics", "refused-status"}
 	{
 		// keep only the sites whose request really reaches the intended handler kind for this route set
 		mcfg := w.ModelCfg()
@@ -380,6 +404,9 @@ func runC15(src sim.Source, o Opts) *Result {
 				if res.failed() {
 					return res
 				}
+				if pg == "refused-status" && pv.Name != "string" {
+					continue // (the panic value is the connection's own there: one combination per site is enough)
+				}
 				res.Checks++
 				res.inc("panic_value_" + pv.Name)
 				res.inc("progress_" + pg)
@@ -403,15 +430,18 @@ func runC15(src sim.Source, o Opts) *Result {
 					case "failed-write":
 						_, _ = c.Writer().Write([]byte("partial"))
 						wroteSomething = true
+					case "refused-status":
+						eventsAtPanic = len(conn.Events)
+						c.Writer().WriteHeader(0)
 					case "copy-source-panics":
 						wroteSomething = true
 						_, _ = io.Copy(c.Writer(), &panickingSource{chunk: "first-chunk;", then: func() {
 							eventsAtPanic = len(conn.Events)
-							panic(pv.V)
+							raise(pv.V)
 						}})
 					}
 					eventsAtPanic = len(conn.Events)
-					panic(pv.V)
+					raise(pv.V)
 				}
 				log := &world.ReqLog{}
 				if st.Name == "route-middleware" {
@@ -574,7 +604,7 @@ func runC15(src sim.Source, o Opts) *Result {
 						_, _ = c.Writer().Write([]byte("partial"))
 					}
 					eventsAtPanic = len(conn.Events)
-					panic(pv.V)
+					raise(pv.V)
 				}
 				var escaped any
 				out, cerr := world.CaptureStderr(func() {
